@@ -1379,6 +1379,8 @@ class Interp:
             raise PathEnd("loop body done")
         else:
             self.assume(spec.invariant(self, env, ZV(seq.length, "int"), seq))
+            if not self.feasible(z3.BoolVal(True)):
+                raise PathEnd("the loop cannot end without a break on this path")
             self.exec_block(st.orelse, env, mod)
 
     def st_While(self, st, env, mod):
@@ -1442,7 +1444,7 @@ class Interp:
             return list(it.keys())
         if isinstance(it, Stream):
             return it
-        if isinstance(it, SymObj) and hasattr(it, "py_iter"):
+        if isinstance(it, (SymObj, ZV)) and hasattr(it, "py_iter"):
             r = it.py_iter(self)
             if isinstance(r, (list, tuple)):
                 return list(r)
@@ -1789,7 +1791,7 @@ class Interp:
         return r
 
     def contains(self, coll, x):
-        if isinstance(coll, SymObj) and hasattr(coll, "py_contains"):
+        if isinstance(coll, (SymObj, ZV)) and hasattr(coll, "py_contains"):
             return coll.py_contains(self, x)
         if isinstance(coll, (list, tuple, set, frozenset)):
             return self.disj([self.eq(x, y) for y in coll])
